@@ -526,23 +526,33 @@ def decode_playback(pb):
 
 
 def run_kani_harness(gpath, bdir, h, flags):
+    """First run without concrete playback (the playback instrumentation costs ~5x solver time); only a harness
+    that FAILED is run a second time with playback enabled to obtain the witness."""
     td = os.path.join(bdir, "td_" + h["name"])
-    cmd = ["kani", os.path.basename(gpath), "--harness", h.get("module", "harness") + "::" + h["name"], "--exact", "--target-dir", td,
-           "-Z", "concrete-playback", "--concrete-playback=print", "--output-format", "regular"] + flags
+    base = ["kani", os.path.basename(gpath), "--harness", h.get("module", "harness") + "::" + h["name"], "--exact", "--target-dir", td,
+            "--output-format", "regular"] + flags
     if h.get("unwind"):
-        cmd += ["--default-unwind", str(h["unwind"])]
+        base += ["--default-unwind", str(h["unwind"])]
     if h.get("solver"):
-        cmd += ["--solver", h["solver"]]
+        base += ["--solver", h["solver"]]
     for a in h.get("args", []):
-        cmd.append(a)
+        base.append(a)
     env = dict(os.environ)
     env["RUSTFLAGS"] = "--edition 2021"
     with PROC_SLOTS:
-        r = run_cmd(cmd, cwd=bdir, timeout=h.get("timeout", 300), env=env)
+        r = run_cmd(base, cwd=bdir, timeout=h.get("timeout", 300), env=env)
     p = parse_kani(r["out"])
-    p.update({"cmd": " ".join(cmd), "wall": r["wall"], "timeout": r["timeout"], "rc": r["rc"],
+    p.update({"cmd": " ".join(base), "wall": r["wall"], "timeout": r["timeout"], "rc": r["rc"],
               "tail": (r["out"][-3000:] + "\n" + r["err"][-3000:])})
-    # clean target dir (disk)
+    if p["verdict"] == "FAILED" and not r["timeout"]:
+        cmd2 = base + ["-Z", "concrete-playback", "--concrete-playback=print"]
+        with PROC_SLOTS:
+            r2 = run_cmd(cmd2, cwd=bdir, timeout=max(600, 4 * h.get("timeout", 300)), env=env)
+        p2 = parse_kani(r2["out"])
+        if p2["playback"]:
+            p["playback"] = p2["playback"]
+        p["wall"] += r2["wall"]
+        p["witness_cmd"] = " ".join(cmd2)
     subprocess.call(["rm", "-rf", td])
     return p
 
@@ -588,7 +598,7 @@ def unit_kani(u, tier):
     open(gpath, "w").write(gen)
     trusted_found = scan_trusted(gen)
     out = {"unit": name, "backend": "kani", "regions": [{k: r[k] for k in ("id", "file", "selector", "sha256", "lines")} for r in regions],
-           "obligations": [], "status": "ok", "notes": [], "cmd": "kani gen.rs --harness <h> --exact -Z concrete-playback --concrete-playback=print " + " ".join(u.get("kani", {}).get("flags", [])),
+           "obligations": [], "status": "ok", "notes": [], "cmd": "kani gen.rs --harness <h> --exact " + " ".join(u.get("kani", {}).get("flags", [])) + "  (failed harnesses re-run with -Z concrete-playback --concrete-playback=print)",
            "trusted_found": [f"{w} @gen.rs:{ln}: {t}" for (w, ln, t) in trusted_found]}
     flags = u.get("kani", {}).get("flags", [])
     hs = [h for h in u["kani"]["harnesses"] if tier_ok(h.get("tier", "quick"), tier)]
